@@ -138,6 +138,9 @@ var (
 	c20MentionPrefix  = []string{"// see ", "// was: ", "//  ", "// NOTE(x): "}
 	c20DirectiveLines = []string{"//go:nosplit", "//go:noinline", "//go:linkname local runtime.remote", "//go:nowritebarrier",
 		"//go:norace", "//go:noescape", "//go:nosplit ", "//go:generate echo //go:redirect",
+		// build constraints (effective in a file header only): whether the go tool would compile
+		// the file is not the build tool's question - the table lists every annotation of the tree
+		"// +build gofuzz", "//go:build ignore", "// +build go1.7,!go1.8", "//go:build arm64 && !amd64",
 		// line directives as generated code carries them (effective at column 1 only): they change
 		// the file name and line positions are reported with, never the package a file belongs to
 		"//line ../../tools/grammar/input.y:410000", "//line /usr/src/gen/tables.go:700000", "//line renamed.go:100000", "/*line sub/dir/other.go:300000:1*/"}
@@ -148,7 +151,7 @@ var (
 // whether a comment is a declaration's doc comment; so line directives are generated in
 // free-standing comments only (file headers, detached groups, comment elements), with line
 // numbers beyond any generated file, where they cannot change which comments are doc comments.
-const c20PlainDirectives = 8
+const c20PlainDirectives = 12
 
 // c20LimitLineDirectives keeps at most one line directive per file, in a free-standing comment
 // (a second one could renumber lines downwards and so join comments that a blank line separates).
@@ -1115,7 +1118,7 @@ func c20GenLine(t *rapid.T, pRedirect int, allowRedirect bool) c20Line {
 	l := c20Line{K: k}
 	switch k {
 	case "prose", "directive", "case", "near", "mention", "block":
-		l.V = rapid.IntRange(0, 11).Draw(t, "variant")
+		l.V = rapid.IntRange(0, 15).Draw(t, "variant")
 	}
 	switch k {
 	case "spaced", "mention", "case", "near", "block":
